@@ -103,4 +103,15 @@ PROPS = {
         rule='case = one metadata block; distinct = hash of the block bytes; every block is non-trivial (>=1 entry iterated, looked up and measured).',
         exhaustive=dict(quick=False, thorough=False),
         assumptions=['expected entries are the generator\'s own list']),
+    'C18': dict(
+        level_text='Runtime monitoring against reference models: (a) Ports::collapsePath on generated absolute paths (1..8 components, ".." at every position incl. leading and surplus, long and dot-containing names) in exact-size heap buffers vs. a component-stack reference, result pointer must lie inside the buffer; (b) for generated port trees the library walk reports (port, address) pairs and Ports::apropos(address) must return that port whenever no sibling name is a prefix of another on the way; (c) path_search (array and message API) on tables with duplicate names, common prefixes, "a/" next to "a/b", metadata blocks of 0..60 bytes in exact-size heap blocks, for every option and with/without query echo, vs. a reference child search; the reply message is validated and decoded with the independent codec.',
+        level_note='apropos is only required where no sibling name (raw or expanded) is a prefix of another (conservative predicate computed per table). path_search locations are "", "/" or the address of a sub-tree port without trailing slash. Metadata of equal-named children is compared as a multiset under the sorting options (std::sort is not stable).',
+        technique='reference-model differential monitor under AddressSanitizer/UBSan',
+        stages=[dict(harness='c18', variant='asan', quick=40000, thorough=2000000,
+                     need=['collapse.paths', 'collapse.with_dotdot', 'apropos.lookups', 'apropos.lookups_enumerated', 'search.array_api', 'search.message_api',
+                           'search.opt_0', 'search.opt_1', 'search.opt_2', 'search.prefix_filtered', 'search.more_than_16_results'])],
+        rule='case = one path (2 of 4), one generated tree with all walked addresses (1 of 4) or one (tables, location, prefix, option) query (1 of 4); '
+             'distinct = hash of the rendered case; every case is non-trivial.',
+        exhaustive=dict(quick=False, thorough=False),
+        assumptions=['reference collapse / child search in harness/c18.cpp', 'library walk_ports supplies the walked addresses (its exactness is C09)']),
 }
